@@ -395,8 +395,9 @@ def join_rules(chk, prog, prefix):
                                f"join while holding {clash}, which the joined thread also takes: deadlock", where=e.where(jb))
             chk.ob(rid, p, f"joined thread identified: {what}", bool(joined), "could not tell which thread is joined", where=b.where(blk))
             # a worker (a thread that runs tasks) joined from the pool's own stop / drop path
-            spawned_paths = {c2.path for _, _, c2 in sp}
-            if any(c.calls_to(CALL_ONCE) for c in joined) and p not in spawned_paths and not any(p.startswith(x + "::") for x in spawned_paths):
+            roots_ = [x for x in ("humphrey::thread::pool::ThreadPool::stop", "<humphrey::thread::pool::ThreadPool as std::ops::Drop>::drop") if x in prog.bodies]
+            shutdown_path = prog.reach_bodies(roots_) if roots_ else set()
+            if any(c.calls_to(CALL_ONCE) for c in joined) and p in shutdown_path:
                 if prefix is not None:
                     chk.ob(prefix, p, "the shutdown path does not wait for worker threads", False,
                            "a worker is joined on the path that App::run takes after the shutdown signal (stop / drop of the pool): a worker that is handling an idle "
